@@ -90,6 +90,11 @@ CLAIMS = {
    text="Functions (one and two parameters) and match expressions built from literal, variable, wildcard, tuple, array and enum-payload patterns, with guards, are evaluated for every permutation of their arms on every argument of a small domain; arm bodies are tagged so that the selected arm and its binding are visible in the result. Factorial, fibonacci, power, gcd and a tail-recursive countdown (depth 2*10^4 quick, 2*10^5 thorough) are compared with the recurrence; scalar functions are applied to matrices; wrong arity, no matching arm and non-exhaustive matches must be errors.",
    note="Guards are only generated where the grammar has them (match expressions); a worker abort (stack overflow) is reported as a violation.",
    ref="6/C16"),
+ "C17": dict(
+   technique="runtime monitoring: offline trace checker over Interpreter::trace_events (start/step/arm/guard/transition/output events) against a reference simulation of generated transition systems; transition limit decided on the count of step events",
+   text="Generated machines (1-4 states, two payload fields, overlapping guards, fallbacks, loops) are run on inputs 0..7 with tracing on; every traced transition (arm index, next state, payload values) and the output must equal the reference simulation; ill-formed machines (wrong argument kind, undeclared target, declared but unimplemented state) must be rejected; non-terminating machines must stop with an error after exactly max_steps step events.",
+   note="Trace parsing relies on the rendered event messages (arm[i] ... -> :State(...) u64(@addr:value)); an unparsable transition event makes the case inconclusive, never a violation.",
+   ref="6/C17"),
 }
 NOT_YET = "not claimed yet: the monitor for this property is still being built in this session (see DESIGN.md section 6 for the planned check)"
 
